@@ -26,9 +26,12 @@ theorem zero_lt_natCast {β : Type} (l : List β) : (0 < (l.length : Int)) ↔ l
 theorem natCast_eq_zero {β : Type} (l : List β) : ((l.length : Int) = 0) ↔ l = [] := by
   cases l <;> simp <;> omega
 
+theorem one_le_natCast {β : Type} (l : List β) : (1 ≤ (l.length : Int)) ↔ l ≠ [] := by
+  cases l <;> simp <;> omega
+
 /-- normalisation of the primitive layer and of the `Except` monad -/
 macro "go_norm" : tactic => `(tactic|
-  try simp only [natCast_le_zero, natCast_lt_one, zero_lt_natCast, natCast_eq_zero, List.isEmpty_iff,Go.gsLen, Go.gsSub, Go.gsAdd, Go.gsIsEmpty, Go.gsIndexFunc, Go.gsLastIndexFunc, Go.gsEqual,
+  try simp only [natCast_le_zero, natCast_lt_one, zero_lt_natCast, natCast_eq_zero, one_le_natCast, ge_iff_le, gt_iff_lt, List.isEmpty_iff,Go.gsLen, Go.gsSub, Go.gsAdd, Go.gsIsEmpty, Go.gsIndexFunc, Go.gsLastIndexFunc, Go.gsEqual,
     Go.gemRepeatStr, Go.stringsSplit, Go.stringsJoin, Go.stringsReplaceAll, Go.stringsHasSuffix,
     Go.stringsHasPrefix, Go.stringsCount, Go.stringsToUpper, Go.unicodeIsSpace, Go.isSpaceHead,
     Go.collapseSpaceRuns, Go.sliceLen, Go.strLen, Go.strSplice, Go.strSlice, Go.gsCharAt, Go.gsSetCharAt,
@@ -368,6 +371,184 @@ theorem foldl_pair_set {β γ : Type} (g : Nat → β → β) (hacc : γ → β 
     have h1 : ¬ (k < k ∧ k < c0.length) := by omega
     rw [if_neg h1] at this
     rw [this]
+
+/-! ### shape-independent closing steps (T5)
+
+The lemmas and tactics below let a proof state the *semantic* loop body / condition once (over the model's
+primitives) and tie the generated one to it by congruence + case analysis + linear arithmetic, so that a
+behaviour-preserving rewrite of the Go source (swapped arms with a negated guard, De Morgan, an arithmetically
+equal index expression, a hoisted temporary) re-proves unchanged. -/
+
+/-- congruence of `>>=` in both arguments -/
+theorem bind_congr_both {γ δ : Type} {x x' : R γ} {f f' : γ → R δ} (hx : x = x') (hf : ∀ a, f a = f' a) :
+    x >>= f = x' >>= f' := by
+  subst hx
+  exact bind_congr hf
+
+/-- a range loop only sees its body at the indexes of the slice -/
+theorem forRangeAux_congr_idx {β σ : Type} (body body' : Int → β → σ → R σ) : ∀ (xs : List β) (k : Nat) (s : σ),
+    (∀ (j : Nat) (x : β) (s : σ), k ≤ j → j < k + xs.length → body (j : Int) x s = body' (j : Int) x s) →
+    Go.forRangeAux body (k : Int) xs s = Go.forRangeAux body' (k : Int) xs s := by
+  intro xs
+  induction xs with
+  | nil => intro k s _; rfl
+  | cons x xs ih =>
+    intro k s h
+    rw [Go.forRangeAux, Go.forRangeAux, h k x s (Nat.le_refl _) (by simp)]
+    refine bind_congr (m := R) fun r => ?_
+    have := ih (k + 1) r (fun j y s' h1 h2 => h j y s' (by omega) (by simp; omega))
+    simpa using this
+
+theorem forRangeM_congr {β σ : Type} (data : List β) (body body' : Int → β → σ → R σ) (s : σ)
+    (h : ∀ (k : Nat) (x : β) (s : σ), k < data.length → body (k : Int) x s = body' (k : Int) x s) :
+    Go.forRangeM data body s = Go.forRangeM data body' s := by
+  have := forRangeAux_congr_idx body body' data 0 s (fun j x s' _ h2 => h j x s' (by simpa using h2))
+  simpa [Go.forRangeM] using this
+
+theorem forRangeCtlAux_congr {β σ ρ : Type} (body body' : Int → β → σ → R (σ × Go.Ctl ρ)) :
+    ∀ (xs : List β) (k : Nat) (s : σ),
+    (∀ (j : Nat) (x : β) (s : σ), k ≤ j → j < k + xs.length → body (j : Int) x s = body' (j : Int) x s) →
+    Go.forRangeCtlAux body (k : Int) xs s = Go.forRangeCtlAux body' (k : Int) xs s := by
+  intro xs
+  induction xs with
+  | nil => intro k s _; rfl
+  | cons x xs ih =>
+    intro k s h
+    rw [Go.forRangeCtlAux, Go.forRangeCtlAux, h k x s (Nat.le_refl _) (by simp)]
+    refine bind_congr (m := R) fun r => ?_
+    have := ih (k + 1) r.1 (fun j y s' h1 h2 => h j y s' (by omega) (by simp; omega))
+    split <;> first | rfl | simpa using this
+
+/-! #### simulation of a `break`/`return` loop by another one over a different state
+
+`φ` maps the state of the first loop to the state of the second one while the loops run; when a loop is left (by
+`break`, `return`, or at the end of the range) only the observations `ψ` / `ψ'` have to agree.  This ties a generated
+loop to a canonical one when the state tuple is permuted, or a counter is kept with an offset (incremented at the top
+or at the bottom of the body), and the code after the loop reads only part of the state. -/
+
+/-- one iteration: same outcome; states related by `φ` on `next`, observations equal on `break`/`return` -/
+def ctlRel {σ σ' τ ρ : Type} (φ : σ → σ') (ψ : σ → τ) (ψ' : σ' → τ) : R (σ × Go.Ctl ρ) → R (σ' × Go.Ctl ρ) → Prop
+  | .ok (r, .next), .ok (r', .next) => r' = φ r
+  | .ok (r, .brk), .ok (r', .brk) => ψ' r' = ψ r
+  | .ok (r, .ret v), .ok (r', .ret v') => v = v' ∧ ψ' r' = ψ r
+  | .error e, .error e' => e = e'
+  | _, _ => False
+
+/-- the whole loop: same returned value, equal observations of the final state -/
+def finRel {σ σ' τ ρ : Type} (ψ : σ → τ) (ψ' : σ' → τ) : R (σ × Option ρ) → R (σ' × Option ρ) → Prop
+  | .ok (r, o), .ok (r', o') => o = o' ∧ ψ' r' = ψ r
+  | .error e, .error e' => e = e'
+  | _, _ => False
+
+section
+variable {σ σ' τ ρ : Type} (φ : σ → σ') (ψ : σ → τ) (ψ' : σ' → τ)
+@[simp] theorem ctlRel_next (r : σ) (r' : σ') :
+    ctlRel (ρ := ρ) φ ψ ψ' (pure (r, .next)) (pure (r', .next)) ↔ r' = φ r := Iff.rfl
+@[simp] theorem ctlRel_brk (r : σ) (r' : σ') :
+    ctlRel (ρ := ρ) φ ψ ψ' (pure (r, .brk)) (pure (r', .brk)) ↔ ψ' r' = ψ r := Iff.rfl
+@[simp] theorem ctlRel_ret (r : σ) (r' : σ') (v v' : ρ) :
+    ctlRel φ ψ ψ' (pure (r, .ret v)) (pure (r', .ret v')) ↔ (v = v' ∧ ψ' r' = ψ r) := Iff.rfl
+@[simp] theorem ctlRel_throw (e e' : Err) :
+    ctlRel (ρ := ρ) φ ψ ψ' (throw e) (throw e') ↔ e = e' := Iff.rfl
+end
+
+theorem forRangeCtlAux_sim {β σ σ' τ ρ : Type} (φ : σ → σ') (ψ : σ → τ) (ψ' : σ' → τ)
+    (body : Int → β → σ → R (σ × Go.Ctl ρ)) (body' : Int → β → σ' → R (σ' × Go.Ctl ρ))
+    (hψ : ∀ s, ψ' (φ s) = ψ s) :
+    ∀ (xs : List β) (k : Nat) (s : σ),
+    (∀ (j : Nat) (x : β) (s : σ), k ≤ j → j < k + xs.length → ctlRel φ ψ ψ' (body (j : Int) x s) (body' (j : Int) x (φ s))) →
+    finRel ψ ψ' (Go.forRangeCtlAux body (k : Int) xs s) (Go.forRangeCtlAux body' (k : Int) xs (φ s)) := by
+  intro xs
+  induction xs with
+  | nil => intro k s _; exact ⟨rfl, hψ s⟩
+  | cons x xs ih =>
+    intro k s h
+    have h0 := h k x s (Nat.le_refl _) (by simp)
+    have ih' := fun r => ih (k + 1) r (fun j y s' h1 h2 => h j y s' (by omega) (by simp; omega))
+    simp only [Go.forRangeCtlAux]
+    cases hb : body (k : Int) x s with
+    | error e =>
+      cases hb' : body' (k : Int) x (φ s) with
+      | error e' => rw [hb, hb'] at h0; exact h0
+      | ok r' => rw [hb, hb'] at h0; exact h0.elim
+    | ok r =>
+      cases hb' : body' (k : Int) x (φ s) with
+      | error e' => rw [hb, hb'] at h0; obtain ⟨r1, c⟩ := r; cases c <;> exact h0.elim
+      | ok r' =>
+        rw [hb, hb'] at h0
+        obtain ⟨r1, c⟩ := r
+        obtain ⟨r1', c'⟩ := r'
+        cases c <;> cases c' <;> try exact h0.elim
+        · -- next
+          have e : r1' = φ r1 := h0
+          subst e
+          have := ih' r1
+          simp only [Int.natCast_add, Int.cast_ofNat_Int] at this
+          exact this
+        · exact ⟨rfl, h0⟩
+        · exact ⟨congrArg some h0.1, h0.2⟩
+
+theorem forRangeCtlM_sim {β σ σ' τ ρ : Type} (φ : σ → σ') (ψ : σ → τ) (ψ' : σ' → τ)
+    (body : Int → β → σ → R (σ × Go.Ctl ρ)) (body' : Int → β → σ' → R (σ' × Go.Ctl ρ))
+    (hψ : ∀ s, ψ' (φ s) = ψ s) (xs : List β) (s : σ)
+    (h : ∀ (j : Nat) (x : β) (s : σ), j < xs.length → ctlRel φ ψ ψ' (body (j : Int) x s) (body' (j : Int) x (φ s))) :
+    finRel ψ ψ' (Go.forRangeCtlM xs body s) (Go.forRangeCtlM xs body' (φ s)) := by
+  have := forRangeCtlAux_sim φ ψ ψ' body body' hψ xs 0 s (fun j x s' _ h2 => h j x s' (by simpa using h2))
+  simpa [Go.forRangeCtlM] using this
+
+/-- use of a simulation: the code after the loops may depend on the observations only -/
+theorem finRel_bind {σ σ' τ ρ γ : Type} (ψ : σ → τ) (ψ' : σ' → τ) {m : R (σ × Option ρ)} {m' : R (σ' × Option ρ)}
+    {K : σ × Option ρ → R γ} {K' : σ' × Option ρ → R γ} (hm : finRel ψ ψ' m m')
+    (hK : ∀ (r : σ) (r' : σ') (o : Option ρ), ψ' r' = ψ r → K (r, o) = K' (r', o)) :
+    m >>= K = m' >>= K' := by
+  cases m with
+  | error e => cases m' with
+    | error e' => have : e = e' := hm; subst this; rfl
+    | ok r' => exact hm.elim
+  | ok r => cases m' with
+    | error e' => exact hm.elim
+    | ok r' =>
+      obtain ⟨r1, o⟩ := r
+      obtain ⟨r1', o'⟩ := r'
+      obtain ⟨ho, hr⟩ : o = o' ∧ ψ' r1' = ψ r1 := hm
+      subst ho
+      exact hK r1 r1' o hr
+
+/-- equality of two loop-free monadic terms that differ in arithmetic sub-terms only: congruence down to the
+integer (or list) arguments, each closed by `rfl` / `omega` -/
+macro "go_cong" : tactic => `(tactic|
+  repeat' (first
+    | (with_reducible rfl)
+    | omega
+    | (-- an integer equation that `omega` does not prove is left alone (taking it apart never helps)
+       fail_if_success (refine (?_ : @Eq Int _ _))
+       fail_if_success (refine (?_ : @Eq Nat _ _))
+       first
+         | (refine bind_congr_both ?_ (fun _ => ?_))
+         | (refine congrArg (pure : _ → R _) ?_)
+         | (refine Prod.ext ?_ ?_)
+         | (funext _)
+         | (with_reducible congr 1))))
+
+/-- split every `if`/`match` on both sides; contradictory cases by arithmetic, the others by congruence -/
+macro "go_close'" : tactic => `(tactic|
+  ((repeat' split) <;>
+    (first
+      | (with_reducible rfl)
+      | omega
+      | (simp_all only [Bool.false_eq_true, Bool.true_eq_false, Bool.not_eq_true, Bool.not_eq_false, not_true_eq_false,
+          not_false_eq_true]; done)
+      | (go_cong; done)
+      | (simp_all; done)
+      | grind [List.isEmpty_iff])))
+
+/-- decide the guards of both sides from hypotheses given in both polarities (`h : a ≤ b`, `h' : ¬ b < a`), so that a
+negated or De-Morganed guard is decided as well -/
+macro "go_guards" "[" hs:Lean.Parser.Tactic.simpLemma,* "]" : tactic => `(tactic|
+  simp only [$hs,*, ↓reduceIte, not_true_eq_false, not_false_eq_true, true_and, and_true, false_and, and_false,
+    true_or, or_true, false_or, or_false, ge_iff_le, gt_iff_lt, ne_eq, Decidable.not_not, Bool.not_eq_true, Bool.not_eq_true',
+    Bool.not_eq_false, Bool.not_eq_false', Bool.not_true, Bool.not_false, Bool.true_eq_false, Bool.false_eq_true,
+    decide_true, decide_false, if_true, if_false, pure_bind])
 
 theorem map_range_getD {β : Type} (l : List β) (d : β) : (List.range l.length).map (fun j => l.getD j d) = l := by
   apply List.ext_getElem
